@@ -151,6 +151,8 @@ func configs(thorough bool) []Config {
 	// its writes leave no trace, and the other sharers can still commit afterwards (the locks are given back)
 	quickCombos = 2
 	add("fatal:inc(x)+assert|inc(x)", -1, false, Script{append(inc(x), assertFails)}, Script{inc(x)})
+	add("fatal:inc(x)+body-panic|inc(x)", -1, false, Script{append(inc(x), bodyPanics)}, Script{inc(x)})
+	add("fatal:iw(1)+body-panic|rt;iinc(1)", -1, false, Script{append(iw(1), bodyPanics)}, Script{rt(), iinc(1)})
 	add("fatal:iw(1)+assert|rt;iinc(1)", -1, false, Script{append(iw(1), assertFails)}, Script{rt(), iinc(1)})
 	add("fatal:xfer(x,y)+assert|read2(y,x)", -1, true, Script{append(xfer(x, y), assertFails)}, Script{read2(y, x)})
 	if thorough {
@@ -279,6 +281,13 @@ func build(cfg Config, s *bubble.Sched) *world {
 		w.ctxs = append(w.ctxs, ctx)
 		if s != nil {
 			w.ths[i].Start(func() {
+				// (as resources.Monitor.RunArchetype does: a panicking archetype must not take its siblings down)
+				defer func() {
+					if x := recover(); x != nil {
+						st.runPanic = fmt.Sprint(x)
+						st.runDone = true
+					}
+				}()
 				st.runErr = ctx.Run()
 				st.runDone = true
 			})
@@ -327,7 +336,7 @@ func usedVars(scripts []Script) map[int]bool {
 	for _, sc := range scripts {
 		for _, sec := range sc {
 			for _, o := range sec {
-				if o.K != "A" && o.K != "F" {
+				if o.K != "A" && o.K != "F" && o.K != "P" {
 					used[o.V] = true
 				}
 			}
@@ -418,6 +427,17 @@ func execute(t *testing.T, cfg Config, c bubble.Chooser, strict bool) execOut {
 		}
 		for i, st := range w.st {
 			if res.fail != nil || deadlock != "" || res.capped {
+				continue
+			}
+			if panicsAt(cfg.Ctxs[i]) {
+				// this context's body panics: the panic must come out of Run (the wrapper recovered it)
+				if !strings.Contains(st.runPanic, bodyPanicMsg) {
+					res.fail = &Failure{"run-error", fmt.Sprintf("context %s: its body panicked but Run returned %v / panicked with %q", st.name, st.runErr, st.runPanic)}
+				}
+				continue
+			}
+			if st.runPanic != "" {
+				res.fail = &Failure{"panic", fmt.Sprintf("context %s panicked: %s", st.name, st.runPanic)}
 				continue
 			}
 			if fatalAt(cfg.Ctxs[i]) >= 0 {
